@@ -86,13 +86,24 @@ def geometry(draw, max_wfs=4, max_n=7, max_layers=3):
     r0s = [draw(gen.logfloat(0.05, 2.0)) for _ in range(n_layers)]
     L0s = [draw(st.one_of(gen.logfloat(2.0, 200.0), gen.logfloat(200.0, 1e5))) for _ in range(n_layers)]
     arg_types = draw(st.sampled_from(["lists", "lists", "arrays"]))
-    return {"arg_types": arg_types, "n_wfs": n_wfs, "pupil_masks": masks, "mask_kinds": kinds, "telescope_diameter": D, "subap_diameters": diams, "gs_altitudes": alts,
+    return {"arg_types": arg_types, "surplus": draw(st.sampled_from([0, 0, 0, 1, 2])), "n_wfs": n_wfs, "pupil_masks": masks, "mask_kinds": kinds, "telescope_diameter": D, "subap_diameters": diams, "gs_altitudes": alts,
             "gs_positions": gspos, "wfs_wavelengths": wls, "n_layers": n_layers, "layer_altitudes": layer_alts, "layer_r0s": r0s, "layer_L0s": L0s}
 
 
 def build(cfg, threads=1, **over):
     c = dict(cfg)
     c.update(over)
+    if c.get("surplus"):
+        # more guide stars / layers tabulated than n_wfs / n_layers says are in use (the repository's tests do this
+        # with gs_positions): the surplus entries must be ignored
+        k = c["surplus"]
+        c["gs_positions"] = [list(p) for p in c["gs_positions"]] + [[77.0, -31.0]] * k
+        c["gs_altitudes"] = list(c["gs_altitudes"]) + [15e3] * k
+        c["wfs_wavelengths"] = list(c["wfs_wavelengths"]) + [1.0e-6] * k
+        c["subap_diameters"] = list(c["subap_diameters"]) + [0.123] * k
+        c["layer_altitudes"] = list(c["layer_altitudes"]) + [3333.0] * k
+        c["layer_r0s"] = list(c["layer_r0s"]) + [0.07] * k
+        c["layer_L0s"] = list(c["layer_L0s"]) + [11.0] * k
     if c.get("arg_types") == "arrays":
         # the documented argument types: float64 ndarrays (kept by the caller, so in-place edits by the library are visible)
         a = [np.array(m) for m in c["pupil_masks"]], np.array(c["subap_diameters"], dtype=float), np.array(c["gs_altitudes"], dtype=float), \
@@ -122,6 +133,7 @@ def classes_of(cfg):
     offaxis = any(any(p) for p in cfg["gs_positions"]) and any(h > 0 for h in cfg["layer_altitudes"])
     cl.append("offaxis_at_altitude" if offaxis else "no_parallax")
     cl.append("args_" + cfg.get("arg_types", "lists"))
+    cl.append("surplus_entries" if cfg.get("surplus") else "exact_lengths")
     cl.append("L0_over_r0_gt_1e5" if any(L / r > 1e5 for L, r in zip(cfg["layer_L0s"], cfg["layer_r0s"])) else "L0_over_r0_le_1e5")
     return cl, offaxis
 
@@ -230,6 +242,61 @@ def meta_body(ctx, cfg):
     ctx.equal(mp, base, "threads=2 build differs from the single-process build")
 
 
+EDITS = ["r0", "L0", "gs", "gs_alt", "wavelength", "layers", "subap", "threads", "none"]
+
+
+@st.composite
+def rebuild_cases(draw):
+    cfg = draw(geometry(max_wfs=3, max_n=4, max_layers=3))
+    cfg["surplus"] = 0
+    cfg["edits"] = draw(st.lists(st.sampled_from(EDITS), min_size=1, max_size=4))
+    return cfg
+
+
+def apply_edit(cur, cm, e, step):
+    if e == "r0":
+        cur["layer_r0s"] = [r * (1.7 if (i + step) % 2 == 0 else 0.6) for i, r in enumerate(cur["layer_r0s"])]
+        cm.layer_r0s = list(cur["layer_r0s"])
+    elif e == "L0":
+        cur["layer_L0s"] = [x * 2.0 for x in cur["layer_L0s"]]
+        cm.layer_L0s = list(cur["layer_L0s"])
+    elif e == "gs":
+        cur["gs_positions"] = [[p[0] + 11.0 * (i + 1), p[1] - 7.0 * i] for i, p in enumerate(cur["gs_positions"])]
+        cm.gs_positions = [list(p) for p in cur["gs_positions"]]
+    elif e == "gs_alt":
+        cur["gs_altitudes"] = [(90e3 if a == 0 else 0) if i == 0 else a for i, a in enumerate(cur["gs_altitudes"])]
+        cm.gs_altitudes = list(cur["gs_altitudes"])
+    elif e == "wavelength":
+        cur["wfs_wavelengths"] = [w * (1.5 if i == 0 else 1.0) for i, w in enumerate(cur["wfs_wavelengths"])]
+        cm.wfs_wavelengths = list(cur["wfs_wavelengths"])
+    elif e == "layers":
+        cur["layer_altitudes"] = [h * 0.5 + 100.0 for h in cur["layer_altitudes"]]
+        cm.layer_altitudes = list(cur["layer_altitudes"])
+    elif e == "subap":
+        cur["subap_diameters"] = [d * (0.8 if i == 0 else 1.0) for i, d in enumerate(cur["subap_diameters"])]
+        cm.subap_diameters = list(cur["subap_diameters"])
+    elif e == "threads":
+        cm.threads = 2 if cm.threads == 1 else 1
+
+
+def rebuild_body(ctx, cfg):
+    """Object history: build, change an attribute of the object, build again.  Every build must equal the build of a
+    fresh object constructed with the current parameters (no state carried over), and hence the oracle."""
+    cl, _ = classes_of(cfg)
+    ctx.case(cfg, nontrivial=True, classes=["edit_" + e for e in cfg["edits"]])
+    cur = dict(cfg)
+    first, cm = build(cur)
+    for step, e in enumerate(cfg["edits"]):
+        apply_edit(cur, cm, e, step)
+        M = np.array(cm.make_covariance_matrix())
+        fresh, _ = build(cur)
+        if not np.array_equal(M.view(np.int32), fresh.view(np.int32)):
+            from ..core import Violation
+            raise Violation("after changing %r on the object (step %d of %r) the rebuilt matrix differs from a fresh object's: %d entries, max abs diff %.3g of scale %.3g" % (
+                e, step, cfg["edits"], int(np.sum(M != fresh)), float(np.max(np.abs(M.astype(float) - fresh.astype(float)))), float(np.max(np.abs(fresh)))))
+    compare(ctx, M, cur, what="slope covariance after a rebuild history")
+
+
 def self_test():
     vk.self_test()
     # oracle sanity: a single WFS, single on-axis layer: matrix symmetric PSD and xx variance > 0
@@ -243,6 +310,7 @@ def self_test():
 
 
 LAWS = [
+    given_law("rebuild_history", rebuild_cases(), rebuild_body, {"quick": 20, "thorough": 150}, shards={"quick": 4, "thorough": 16}),
     given_law("oracle_xl", geometry(max_wfs=6, max_n=10, max_layers=4), cov_body, {"quick": 0, "thorough": 25}, shards={"quick": 1, "thorough": 16}),
     given_law("oracle", geometry(), cov_body, {"quick": 70, "thorough": 600}, shards={"quick": 6, "thorough": 16}),
     given_law("metamorphic", meta_cases(), meta_body, {"quick": 35, "thorough": 250}, shards={"quick": 4, "thorough": 16}),
